@@ -567,9 +567,13 @@ def _is_type_arg_contained(t: Type, other: Type,
         elif t.variance.is_contravariant() and other.variance.is_contravariant():
             return other.bound.is_subtype(t.bound)
     elif is_wildcard and not is_wildcard2 and t.bound:
-        if type_param.is_covariant():
+        # The projection must go in the direction of the declared variance.
+        # A projection in the opposite direction can reach this point when
+        # a projected type argument is substituted into a supertype.
+        if type_param.is_covariant() and t.variance.is_covariant():
             return t.bound.is_subtype(other)
-        elif type_param.is_contravariant():
+        elif (type_param.is_contravariant() and
+                t.variance.is_contravariant()):
             return other.is_subtype(t.bound)
     if is_wildcard2 and not other.bound:
         if not (is_wildcard and not t.bound):
